@@ -1,3 +1,8 @@
 // Independent reference models shared by the harnesses (written from the standards / format
 // documentation, not from the Physis sources).
 #![allow(dead_code)]
+
+#[path = "../gen/pi.rs"]
+pub mod gen_pi;
+#[path = "../gen/params.rs"]
+pub mod params;
